@@ -19,24 +19,54 @@ type scanner struct {
 	src, dst dyn.Buf
 	out      []uint64
 	rev, tmp []uint64
+	// panicked holds the message of the first conversion call that panicked
+	panicked string
 }
 
 const chunkN = 1 << 14
 
 func newScanner(cv *dyn.ConvOp) *scanner { return newScannerCh(cv, 1) }
 
+// operand makes a buffer of `frames` frames reached in one of three ways:
+// 0: a window (Slice view) of a larger allocated buffer, starting at a later
+// frame and with spare capacity behind it; 1: a buffer recycled through a
+// pool (Get, used, Put, Get again); 2: a buffer grown to its size by Append.
+// What holds for a freshly allocated buffer must hold for all of them.
+func operand(t *dyn.TypeOps, ch, frames, how int) dyn.Buf {
+	switch how % 3 {
+	case 1:
+		pool := t.PoolAlloc(signal.Allocator{Channels: ch, Length: frames, Capacity: frames})
+		var b dyn.Buf
+		for i := 0; i < 4; i++ { // in the plain build the pool hands the same object back
+			b = pool.Get()
+			if b.Len() > 0 {
+				b.SetSample(0, t.FromInt(1))
+			}
+			pool.Put(b)
+		}
+		return pool.Get()
+	case 2:
+		b := t.Alloc(signal.Allocator{Channels: ch, Length: 1, Capacity: 1})
+		for b.Length() < frames {
+			n := min(frames-b.Length(), 4096)
+			b.Append(t.Alloc(signal.Allocator{Channels: ch, Length: n, Capacity: n}))
+		}
+		return b
+	}
+	parent := t.Alloc(signal.Allocator{Channels: ch, Length: frames + 3, Capacity: frames + 5})
+	return parent.Slice(2, 2+frames)
+}
+
 // newScannerCh uses buffers with ch channels (the interleaved positions are
 // filled in order, so the channel count must not matter to the results).
-func newScannerCh(cv *dyn.ConvOp, ch int) *scanner {
+func newScannerCh(cv *dyn.ConvOp, ch int) *scanner { return newScannerHow(cv, ch, 0) }
+
+// newScannerHow additionally chooses how the two operands were obtained.
+func newScannerHow(cv *dyn.ConvOp, ch, how int) *scanner {
 	frames := (chunkN + ch - 1) / ch
-	// both operands are windows (Slice views) of larger buffers, starting at a
-	// later frame and with spare capacity behind them: what holds for a freshly
-	// allocated buffer must hold for a view
-	srcParent := cv.S.Alloc(signal.Allocator{Channels: ch, Length: frames + 3, Capacity: frames + 5})
-	dstParent := cv.D.Alloc(signal.Allocator{Channels: ch, Length: frames + 2, Capacity: frames + 4})
 	return &scanner{cv: cv, ch: ch,
-		src: srcParent.Slice(2, 2+frames),
-		dst: dstParent.Slice(1, 1+frames),
+		src: operand(cv.S, ch, frames, how),
+		dst: operand(cv.D, ch, frames, how/3),
 		out: make([]uint64, chunkN), rev: make([]uint64, chunkN), tmp: make([]uint64, chunkN)}
 }
 
@@ -48,7 +78,9 @@ func (s *scanner) conv(in []uint64) []uint64 {
 		src, dst = s.src.Slice(0, frames), s.dst.Slice(0, frames)
 	}
 	s.cv.S.Fill(src, in)
-	s.cv.Call(src, dst)
+	if p, msg := core.Guard(func() { s.cv.Call(src, dst) }); p && s.panicked == "" {
+		s.panicked = msg
+	}
 	s.cv.D.Drain(dst, s.out[:n])
 	return s.out[:n]
 }
